@@ -70,6 +70,9 @@ type vWorld struct {
 	nwrite   uint32
 	sync     int // requests in flight that the loop answers within the same arm
 	regMu    sync.Mutex
+	stuck    bool
+	drainD   []chan defs.PathDescribeRes  // answer channels of all describe requests (drained for duplicates)
+	drainR   []chan defs.PathAddReaderRes // ... and of all add-reader requests
 }
 
 func (w *vWorld) syncAdd(d int) {
@@ -301,6 +304,12 @@ func vTeardown() {
 	w.pa.close()
 	w.pa.wait()
 	synctest.Wait()
+	for _, ch := range w.drainD {
+		close(ch)
+	}
+	for _, ch := range w.drainR {
+		close(ch)
+	}
 	for _, r := range w.rds {
 		w.detach(r)
 	}
@@ -383,7 +392,7 @@ func (w *vWorld) settle() string {
 	synctest.Wait()
 	// alwaysAvailable: SubStream.Initialize waits (in the loop goroutine) for the last sample of the
 	// offline sub-stream, i.e. for fake time to pass; let it pass until the arm has answered
-	for i := 0; i < 2000; i++ {
+	for i := 0; i < 400 && !w.stuck; i++ {
 		w.mu.Lock()
 		n := w.sync
 		w.mu.Unlock()
@@ -392,6 +401,9 @@ func (w *vWorld) settle() string {
 		}
 		time.Sleep(5 * time.Millisecond)
 		synctest.Wait()
+		if i == 399 {
+			w.stuck = true // the loop does not answer any more; do not wait again in this history
+		}
 	}
 	w.mu.Lock()
 	tr, re := w.trace, w.replies
@@ -472,10 +484,18 @@ func vExec(op string) string {
 	case "desc":
 		rid := f[1]
 		pa.pendingRequests.Add(1)
+		chD := make(chan defs.PathDescribeRes)
+		w.drainD = append(w.drainD, chD)
 		go func() {
+			defer func() {
+				// a second answer to the same request would block the loop for ever: take it and report it
+				for range chD {
+					w.rep("q" + rid + "=dup")
+				}
+			}()
 			res, err := pa.describe(defs.PathDescribeReq{
 				AccessRequest: defs.PathAccessRequest{Name: "p", SkipAuth: true},
-				Res:           make(chan defs.PathDescribeRes),
+				Res:           chD,
 			})
 			switch {
 			case err != nil:
@@ -494,11 +514,18 @@ func vExec(op string) string {
 		rid := f[1]
 		r := w.reader(verifutil.Atoi(f[2]))
 		pa.pendingRequests.Add(1)
+		chR := make(chan defs.PathAddReaderRes)
+		w.drainR = append(w.drainR, chR)
 		go func() {
+			defer func() {
+				for range chR {
+					w.rep("q" + rid + "=dup")
+				}
+			}()
 			res, err := pa.addReader(defs.PathAddReaderReq{
 				Author:        r,
 				AccessRequest: defs.PathAccessRequest{Name: "p", SkipAuth: true},
-				Res:           make(chan defs.PathAddReaderRes),
+				Res:           chR,
 			})
 			if err != nil {
 				w.rep("q" + rid + "=" + vErrTok(err))
